@@ -10,6 +10,8 @@
 (e) every documented invalid path / output combination (directory or several paths without --in-place, stdin mixed with paths or with
     --in-place, --in-place with --output, contradictory annotation flags, no path): non-zero exit, nothing on stdout, no file created or modified,
     in-process and through the real executable.
+(f) several modules in one --in-place run (directory with a sub-directory) with preserve lists and every single flag (and every flag next to
+    --rename-globals): each module must equal api(documented kwargs) of its own source - options must not depend on the position in the run.
 """
 import itertools
 import os
@@ -69,6 +71,7 @@ def tasks(tier):
     t += [('spellings', i, 4) for i in range(4)]
     t += [('subprocess', i, 16) for i in range(16)]
     t += [('validity',)]
+    t += [('multifile', i, 4) for i in range(4)]
     return t
 
 
@@ -223,6 +226,25 @@ def run_task(task):
                     if v:
                         res.violation(v[0] + ':spelling:' + which, {'kind': 'spelling', 'flags': base, 'args': args, 'names': names, 'kw': kwname}, v[1])
                     res.sample({'spelling': args}, 1)
+    elif kind == 'multifile':
+        _, part, nparts = task
+        scratch = tempfile.mkdtemp(prefix='verif-c13m-', dir=os.environ.get('VERIF_SCRATCH', '/var/tmp'))
+        try:
+            vectors = [[]] + [[f] for f in clidrv.ALL_FLAGS] + [['--rename-globals', f] for f in clidrv.ALL_FLAGS if f != '--rename-globals']
+            for i, flags in enumerate(vectors):
+                if i % nparts != part:
+                    continue
+                for rname, runner in (('inprocess', clidrv.run),) + ((('subprocess', clidrv.run_subprocess),) if i % 6 == 0 else ()):
+                    res.count('evaluations')
+                    res.count('transitions', len(MULTI_SOURCES))
+                    res.count('distinct_nontrivial')
+                    if rname == 'subprocess':
+                        res.count('traces_validated_against_impl')
+                    v = multifile_violation(flags, scratch, runner)
+                    if v:
+                        res.violation(v[0], {'kind': 'multifile', 'flags': flags, 'runner': rname}, v[1])
+        finally:
+            shutil.rmtree(scratch, ignore_errors=True)
     elif kind == 'validity':
         scratch = tempfile.mkdtemp(prefix='verif-c13v-', dir=os.environ.get('VERIF_SCRATCH', '/var/tmp'))
         try:
@@ -314,6 +336,38 @@ def validity_violation(argv, why, root, runner):
     return None
 
 
+MULTI_SOURCES = [PRESERVE_SRC, PRESERVE_SRC.replace(b'first_local', b'first_local').replace(b'function_one', b'function_two'), SOURCES[0], PRESERVE_SRC + b'extra_global = global_one\nprint(extra_global, extra_global)\n']
+
+
+def multifile_violation(flags, scratch, runner):
+    """every module of one --in-place run over a directory must get the same options: the i-th file equals api(kwargs)(its own source)"""
+    import shutil as _sh
+    d = os.path.join(scratch, 'multi')
+    if os.path.exists(d):
+        _sh.rmtree(d)
+    os.makedirs(os.path.join(d, 'sub'))
+    paths = []
+    for i, src in enumerate(MULTI_SOURCES):
+        p = os.path.join(d, 'sub' if i == 2 else '', 'm%d_mod.py' % i)
+        with open(p, 'wb') as f:
+            f.write(src)
+        paths.append(p)
+    args = list(flags) + ['--preserve-locals', 'first_local, second_local', '--preserve-globals', 'global_one', '--preserve-globals', 'global_two,', d, '--in-place']
+    o = runner(args, stdin=b'')
+    status, on = clidrv.model(flags)
+    if status == 'invalid':
+        return None
+    if o.exit != 0:
+        return ('multifile-run-failed', 'args %s: %r' % (args, o))
+    for i, (p, src) in enumerate(zip(paths, MULTI_SOURCES)):
+        want = expected_bytes(src, on, preserve_locals=['first_local', 'second_local'], preserve_globals=['global_one', 'global_two'])
+        with open(p, 'rb') as f:
+            got = f.read()
+        if got != want:
+            return ('multifile-module-%d-differs' % i, 'args %s\nfile #%d of the run %s\ncli: %r\napi: %r' % (args, i, os.path.basename(p), got[:500], want[:500]))
+    return None
+
+
 def subprocess_violation(flags, src, mode, scratch):
     """mode 0: stdin->stdout, 1: file->stdout, 2: file->--output"""
     path = os.path.join(scratch, 'in.py')
@@ -362,6 +416,13 @@ def replay(case):
     if k == 'spelling':
         v = bytes_violation(case['flags'], PRESERVE_SRC, case['args'], {case['kw']: list(case['names'])})
         return v and {'signature': v[0] + ':spelling:' + ('locals' if 'locals' in case['kw'] else 'globals'), 'detail': v[1]}
+    if k == 'multifile':
+        scratch = tempfile.mkdtemp(prefix='verif-c13m-', dir=os.environ.get('VERIF_SCRATCH', '/var/tmp'))
+        try:
+            v = multifile_violation(case['flags'], scratch, clidrv.run if case['runner'] == 'inprocess' else clidrv.run_subprocess)
+        finally:
+            shutil.rmtree(scratch, ignore_errors=True)
+        return v and {'signature': v[0], 'detail': v[1]}
     if k == 'validity':
         scratch = tempfile.mkdtemp(prefix='verif-c13v-', dir=os.environ.get('VERIF_SCRATCH', '/var/tmp'))
         try:
